@@ -38,9 +38,8 @@ def run(pid, tier, seed):
     import subprocess
     vg_runs = [("strings", ["strings.cxx"], ["record", "--seed", seed, "--n", 100]), ("seqs", ["seqs.cxx"], ["record"]),
                ("ledger", ["ledger.cxx"], ["record", "--seed", seed + 2]), ("units", ["units.cxx"], ["record", "--runs", 2, "--len", 40]),
-               ("unify", ["unify.cxx"], ["record", "--seed", seed, "--runs", 2, "--len", 60])]
-    if not q:
-        vg_runs.append(("make", ["make.cxx"], ["record", "--seed", seed, "--runs", 2, "--len", 150]))
+               ("unify", ["unify.cxx"], ["record", "--seed", seed, "--runs", 2, "--len", 60]),
+               ("make", ["make.cxx"], ["record", "--seed", seed, "--runs", 2 if q else 6, "--len", 150 if q else 400])]
     vg = []
     for name, srcs, args in vg_runs:
         e = vlib.build_harness(name, srcs)
